@@ -37,23 +37,26 @@ type vActorSpec struct {
 }
 
 type vScenario struct {
-	ID       string          `json:"id"`
-	Seed     int64           `json:"seed"`
-	Strategy string          `json:"strategy"` // random | pct | plan
-	Plan     []string        `json:"plan"`
-	Kind     string          `json:"kind"` // server | client | fd
-	OnConn   bool            `json:"onconnect"`
-	OnDisc   bool            `json:"ondisconnect"`
-	OnReq    bool            `json:"onrequest"`
-	OnPrep   bool            `json:"onprepare"`
-	NCloseCb int             `json:"nclosecb"`
-	ConnBody string          `json:"connbody"` // return | close | yield
-	PrepBody string          `json:"prepbody"` // return | close
-	Handler  []vHandlerStep  `json:"handler"`
-	Actors   []vActorSpec    `json:"actors"`
-	Peer     [][]interface{} `json:"peer"` // ["send",n] ["close"] ["rst"] ["drain",n] ["shutwr"]
-	SndBuf   int             `json:"sndbuf"`
-	LateReq  bool            `json:"latereq"` // client: SetOnRequest is an actor op instead of an option
+	StallName string          `json:"stallname"`
+	StallPt   int             `json:"stallpt"`
+	StallOcc  int             `json:"stallocc"`
+	ID        string          `json:"id"`
+	Seed      int64           `json:"seed"`
+	Strategy  string          `json:"strategy"` // random | pct | plan
+	Plan      []string        `json:"plan"`
+	Kind      string          `json:"kind"` // server | client | fd
+	OnConn    bool            `json:"onconnect"`
+	OnDisc    bool            `json:"ondisconnect"`
+	OnReq     bool            `json:"onrequest"`
+	OnPrep    bool            `json:"onprepare"`
+	NCloseCb  int             `json:"nclosecb"`
+	ConnBody  string          `json:"connbody"` // return | close | yield
+	PrepBody  string          `json:"prepbody"` // return | close
+	Handler   []vHandlerStep  `json:"handler"`
+	Actors    []vActorSpec    `json:"actors"`
+	Peer      [][]interface{} `json:"peer"` // ["send",n] ["close"] ["rst"] ["drain",n] ["shutwr"]
+	SndBuf    int             `json:"sndbuf"`
+	LateReq   bool            `json:"latereq"` // client: SetOnRequest is an actor op instead of an option
 }
 
 type vOutEvent struct {
@@ -421,6 +424,7 @@ func vRunConnScenario(sc *vScenario) (out []vOutEvent, info map[string]interface
 		s.UsePCT(3, 60)
 	}
 	s.plan = sc.Plan
+	s.stallName, s.stallPt, s.stallOcc = sc.StallName, int32(sc.StallPt), sc.StallOcc
 	r := &vConnRun{sc: sc, s: s}
 	s.emit = r.ev
 	mp := vNewManualPoll(s, "poller")
@@ -635,6 +639,8 @@ func vRunConnScenario(sc *vScenario) (out []vOutEvent, info map[string]interface
 	info["steps"] = len(s.taken)
 	info["drift"] = s.drift
 	info["taken"] = s.taken
+	info["gates"] = s.gateLog
+	info["stalled"] = s.stalled
 	info["stuck"] = s.stuck
 	info["deadlock"] = s.deadlock
 	mp.close()
